@@ -177,7 +177,9 @@ def psd(height, dx, window=None):
 
     """
     window = make_window(height, dx, window)
-    ft = fft.ifftshift(fft.fft2(fft.fftshift(height * window)))
+    # fftshift on the way out: it is what puts zero frequency at index n//2, where forward_ft_unit has its zero
+    # (ifftshift would put it at n//2 + 1 for odd n)
+    ft = fft.fftshift(fft.fft2(fft.ifftshift(height * window)))
     psd = abs(ft)**2  # mag squared first as per GH_FFT
 
     fs = 1 / dx
@@ -261,10 +263,14 @@ def bandlimited_rms(r, psd, wllow=None, wlhigh=None, flow=None, fhigh=None):
     # prysm doesn't enforce the user to be "top left" or "lower left" origin,
     # abs makes sure we do things right no matter what
     dx = abs(pt2 - pt1)
-    reduced = np.trapz(work, dx=dx, axis=0)
+    try:
+        trapz = np.trapezoid  # numpy >= 2 (np.trapz was removed)
+    except AttributeError:
+        trapz = np.trapz
+    reduced = trapz(work, dx=dx, axis=0)
 
     if r.ndim == 2:
-        reduced = np.trapz(reduced, dx=dx, axis=0)
+        reduced = trapz(reduced, dx=dx, axis=0)
 
     return np.sqrt(reduced)
 
